@@ -1,0 +1,41 @@
+//go:build verif
+
+package keeper
+
+// Contracts for the deductive verifier in /verif (govc). Comment-only; compiled only with -tags verif.
+//
+// Who signs a message is decided by the SDK codec from the message's protobuf annotations (outside the verified
+// code): msgSigners(codec, msg) is a ghost function that only GetMsgV1Signers establishes.
+
+//@ spec func msgSigners(cdc iface, msg iface) [][]byte
+//@ spec func msgSignersErr(cdc iface, msg iface) error
+
+//@ contract interface github.com/cosmos/cosmos-sdk/codec.Codec.GetMsgV1Signers
+//@   ensures result0 == msgSigners(self, msg) && result2 == msgSignersErr(self, msg)
+
+//@ contract (*Keeper).authenticateTx
+//@   pure
+//@   let addr = nth(k.GetInterchainAccountAddress(ctx, connectionID, portID), 0)
+//@   let found = nth(k.GetInterchainAccountAddress(ctx, connectionID, portID), 1)
+//@   let allow = k.GetParams(ctx).AllowMessages
+//@   invariant #1 idx: 0 - 1 <= rangeindex && rangeindex < len(msgs) || (len(msgs) == 0 && rangeindex == 0 - 1)
+//@   invariant #1 authenticated_so_far: forall j int :: 0 <= j && j <= rangeindex ==> types.ContainsMsgType(allow, msgs[j]) && msgSignersErr(k.cdc, msgs[j]) == nil && (forall s int :: 0 <= s && s < len(msgSigners(k.cdc, msgs[j])) ==> bech32enc(msgSigners(k.cdc, msgs[j])[s]) == addr)
+//@   invariant #2 idx: 0 - 1 <= rangeindex && rangeindex < len(signers) || (len(signers) == 0 && rangeindex == 0 - 1)
+//@   invariant #2 signers_so_far: forall s int :: 0 <= s && s <= rangeindex ==> bech32enc(signers[s]) == addr
+//@   ensures account_registered: err == nil ==> found
+//@   ensures every_message_allowed: forall j int :: err == nil && 0 <= j && j < len(msgs) ==> types.ContainsMsgType(allow, msgs[j])
+//@   ensures every_signer_is_the_account: forall j int, s int :: err == nil && 0 <= j && j < len(msgs) && 0 <= s && s < len(msgSigners(k.cdc, msgs[j])) ==> bech32enc(msgSigners(k.cdc, msgs[j])[s]) == addr
+//@   ensures pure: world(ctx) == old(world(ctx))
+
+// executeTx: all messages run on one cached context that is committed only after every message succeeded; nothing
+// runs unless authenticateTx accepted the whole batch for the channel's connection and the packet's source port.
+
+//@ contract (*Keeper).executeTx
+//@   let ch = icaChannelOf(world(ctx), destPort, destChannel)
+//@   let found = icaHasChannel(world(ctx), destPort, destChannel)
+//@   let auth = k.authenticateTx(ctx, msgs, ch.ConnectionHops[0], sourcePort)
+//@   modifies world(ctx)
+//@   invariant #1 parent_untouched: world(ctx) == old(world(ctx))
+//@   ensures authenticated: err == nil ==> found && auth == nil
+//@   ensures unauthenticated_rejected: !found || auth != nil ==> err != nil && world(ctx) == old(world(ctx))
+//@   ensures all_or_nothing: err != nil ==> world(ctx) == old(world(ctx))
